@@ -1092,7 +1092,26 @@ def check_getvector_contract(run, rule='R10g'):
                     run.violation(rule, f.key, construct, 'the conversion dtype %s can be %s here (not the dtype parameter, not under a symbol test): the argument keeps '
                                   'a type of its own -- an integer array is then computed in wrapping integer arithmetic and a float32 array to seven digits, '
                                   'while the equal list is computed in float64' % (dt.id, src(bad.value, 30) if isinstance(bad, ast.Assign) else '?'), f=f, node=x)
-    # a result array returned without any conversion (v.copy(), v itself) in the array / row / col forms
+    # (conversion) an array / row / col result passes through a conversion (astype / np.array(.., dtype=)): returning the flattened
+    # argument itself keeps the caller's dtype.  Unconverted returns are the 'sequence' / 'list' outputs only.
+    for node in cfg.nodes:
+        if node.id not in reach or not isinstance(node.ast, ast.Return) or node.ast.value is None:
+            continue
+        rv = node.ast.value
+        txt = ast.unparse(rv)
+        if 'astype(' in txt or 'dtype=' in txt or isinstance(rv, ast.Constant):
+            continue
+        if isinstance(rv, ast.Call) and isinstance(rv.func, ast.Name) and rv.func.id == 'list':
+            continue
+        fs = facts.get(node.id, frozenset())
+        seq = any(fc[1] and any(k in ast.unparse(fc[2].ast) for k in ("out == 'sequence'", "out == 'list'", "out in ('sequence', 'list')", "out in ('list', 'sequence')")) for fc in fs)
+        n += 1
+        if seq:
+            run.holds(rule, f.key, 'conversion of ' + src(rv, 40), "unconverted only for the 'sequence' / 'list' outputs", f=f, node=node.ast)
+        else:
+            run.violation(rule, f.key, 'conversion of ' + src(rv, 40), "an 'array' / 'row' / 'col' result is returned without a conversion to the requested dtype "
+                          '(astype / np.array(.., dtype=)): the result keeps the dtype of the argument -- uint8 wraps, float32 has seven digits -- where the '
+                          'equal list is converted to float64', f=f, node=node.ast)
     # (length)
     def walk(stmts, seen):
         nonlocal n
@@ -1178,3 +1197,38 @@ def check_getunit_contract(run, rule='R10g'):
     if n < 3:
         run.error('R10g: getunit: fewer than 3 value returns evaluated')
     return n
+
+
+def check_scalartypes(run, rule='R10g'):
+    """The table of scalar types that isscalar / isvector / getvector accept contains the Python and the NumPy real scalars:
+    int, float, numpy.integer and numpy.floating (np.int64 is not an int, np.float32 is not a float)."""
+    mod = None
+    for m in run.prog.modules.values() if hasattr(run.prog, 'modules') else []:
+        if m.short == 'base/argcheck':
+            mod = m
+    if mod is None:
+        run.error('R10g: module base/argcheck not found', hard=True)
+        return
+    tbl = None
+    for st in mod.tree.body:
+        if isinstance(st, ast.Assign) and any(isinstance(t, ast.Name) and t.id == '_scalartypes' for t in st.targets):
+            tbl = st
+    if tbl is None:
+        run.error('R10g: _scalartypes table not found in base/argcheck (anchor not found in the current source)', hard=True)
+        return
+    names = set()
+    for y in ast.walk(tbl.value):
+        if isinstance(y, ast.Name):
+            names.add(y.id)
+        elif isinstance(y, ast.Attribute):
+            names.add(y.attr)
+    need = {'int', 'float', 'integer', 'floating'}
+    alt = {'integer': {'number', 'generic', 'Integral', 'Real', 'Number'}, 'floating': {'number', 'generic', 'Real', 'Number'}}
+    missing = [k for k in sorted(need) if k not in names and not (alt.get(k, set()) & names)]
+    construct = 'scalar type table'
+    if missing:
+        run.violation(rule, 'base/argcheck:_scalartypes', construct, 'the table of accepted scalar types lacks %s: NumPy scalars of that kind (np.int64 from an arange, '
+                      'np.float32) are no longer scalars for isscalar / isvector / getvector, so a NumPy integer angle or factor takes the vector branch or is '
+                      'rejected' % ', '.join('numpy.' + k if k in ('integer', 'floating') else k for k in missing), node=tbl)
+    else:
+        run.holds(rule, 'base/argcheck:_scalartypes', construct, 'int, float, numpy.integer, numpy.floating are accepted', node=tbl)
